@@ -53,6 +53,7 @@ type Parser struct {
 	lastStrKey gen.Key
 	tokenFuncs map[string]TokenFunc
 	quoteDelim byte
+	cmode      string // mode to return to at the end of a comment
 
 	// Reuse maps. Previously returned maps will no longer be valid or rather
 	// could be modified during parsing.
@@ -607,11 +608,16 @@ func (p *Parser) parseBuffer(buf []byte, last bool) (err error) {
 					p.addToken(off)
 				}
 			}
+			if depth == 0 && 0 < len(p.stack) {
+				// The slash completed a top level value.
+				p.deliver()
+			}
+			p.cmode = p.mode
 			p.mode = commentStartMap
 		case commentStart:
 			p.mode = commentMap
 		case commentEnd:
-			p.mode = valueMap
+			p.mode = p.cmode
 			continue
 		case ccommentStart:
 			p.mode = ccommentMap
@@ -657,23 +663,7 @@ func (p *Parser) parseBuffer(buf []byte, last bool) (err error) {
 			return p.byteError(off, p.mode, b, bytes.Runes(buf[off:])[0])
 		}
 		if depth == 0 && 256 < len(p.mode) && p.mode[256] == 'v' {
-			if p.cb == nil && p.resultChan == nil {
-				p.result = p.stack[0]
-			} else {
-				if p.cb != nil {
-					p.cb(p.stack[0])
-				}
-				if p.resultChan != nil {
-					p.resultChan <- p.stack[0]
-				}
-			}
-			p.stack = p.stack[:0]
-			p.mi = 0
-			if p.OnlyOne {
-				p.mode = spaceMap
-			} else {
-				p.mode = valueMap
-			}
+			p.deliver()
 		}
 	}
 	if last {
@@ -711,6 +701,27 @@ func (p *Parser) parseBuffer(buf []byte, last bool) (err error) {
 		}
 	}
 	return nil
+}
+
+// deliver the completed top level value.
+func (p *Parser) deliver() {
+	if p.cb == nil && p.resultChan == nil {
+		p.result = p.stack[0]
+	} else {
+		if p.cb != nil {
+			p.cb(p.stack[0])
+		}
+		if p.resultChan != nil {
+			p.resultChan <- p.stack[0]
+		}
+	}
+	p.stack = p.stack[:0]
+	p.mi = 0
+	if p.OnlyOne {
+		p.mode = spaceMap
+	} else {
+		p.mode = valueMap
+	}
 }
 
 // only for non-string
